@@ -1,6 +1,7 @@
 """C17 - configurations round-trip losslessly; invalid ones are rejected up front."""
 
 import ast
+import re
 
 from .. import AnalysisError
 from ..cfg import ALL_KINDS, NORMAL_KINDS, iter_own
@@ -262,13 +263,22 @@ def c17_3(ctx, r):
 
 
 def _is_must_cmp(ctx, fn, form):
-    """`a == b` where both locals are bound to getattr(<group>.submitter_params, <param>) in the same loop body."""
-    a, b = [x.strip() for x in form.split("==")]
+    """`a == b` where each side is getattr(<group>.submitter_params, <param>) - written in place or bound to a local in the same loop body."""
+    if form.count(" == ") != 1:
+        return False
+    a, b = [x.strip() for x in form.split(" == ")]
     defs = {}
     for n in iter_own(fn.node):
         if isinstance(n, ast.Assign) and isinstance(n.targets[0], ast.Name) and n.targets[0].id in (a, b) and isinstance(n.value, ast.Call) and ctx.src(n.value.func) == "getattr":
             defs[n.targets[0].id] = ctx.src(n.value.args[0])
-    return set(defs) == {a, b} and all(v.endswith(".submitter_params") for v in defs.values())
+
+    def side(x):
+        if x in defs:
+            return defs[x].endswith(".submitter_params")
+        m = re.fullmatch(r"getattr\((.+)\.submitter_params, \w+\)", x)
+        return bool(m)
+
+    return side(a) and side(b)
 
 
 @rule(P, "C17.4", "T1+T6", "each listed invalidity has a raising check on the creation path", min_obligations=8)
@@ -334,7 +344,7 @@ def c17_4(ctx, r):
     raises_under(cg, lambda f, p: (not p) and bool(_re2.fullmatch(r"(<JobParametersInterface\.submission_group>|\w+\.submission_group) in \w+", f)), "a job naming an unknown group raises", "unknown group check", "a job without a valid submission group")
     raises_under(cg, lambda f, p: p and bool(_re2.fullmatch(r"(<SubmissionGroup\.name>|\w+\.name) in \w+", f)), "a group listed twice raises", "duplicate group check", "inconsistent group-wide settings")
     raises_under(cg, lambda f, p: (not p) and "hpc_type" in f and "==" in f, "differing hpc_type raises", "hpc_type check", "inconsistent group-wide settings")
-    raises_under(cg, lambda f, p: (not p) and bool(_re2.fullmatch(r"\w+ == \w+", f)) and _is_must_cmp(ctx, cg, f), "a differing must_be_same value raises", "must_be_same check", "inconsistent group-wide settings")
+    raises_under(cg, lambda f, p: (not p) and _is_must_cmp(ctx, cg, f), "a differing must_be_same value raises", "must_be_same check", "inconsistent group-wide settings")
     gset = None
     for n in ctx.cfg(cg).nodes:
         if n.kind == "stmt" and isinstance(n.ast, ast.Raise):
@@ -390,10 +400,10 @@ def c17_4(ctx, r):
     for n in ctx.cfg(cg).nodes:
         if n.kind == "stmt" and isinstance(n.ast, ast.Raise):
             forms = guard_forms(ctx, cg, n)
-            cmpf = [f for f, p in forms if (not p) and _re2.fullmatch(r"\w+ == \w+", f) and _is_must_cmp(ctx, cg, f)]
+            cmpf = [f for f, p in forms if (not p) and _is_must_cmp(ctx, cg, f)]
             if cmpf:
-                ops = {x.strip() for f in cmpf for x in f.split("==")}
-                extra = sorted(("" if p else "not ") + f for f, p in forms if any(_re2.search(rf"\b{o}\b", f) for o in ops) and f not in cmpf)
+                ops = {x.strip() for f in cmpf for x in f.split(" == ")}
+                extra = sorted(("" if p else "not ") + f for f, p in forms if any(o in f for o in ops) and f not in cmpf)
                 r.check(not extra, "the must_be_same comparison raises whatever the first group's value is", key_of(cg, f"must_be_same also requires {extra}"), cg.loc(n.ast),
                         f"a differing group-wide setting is rejected only if additionally {extra}: e.g. max_nodes unset in the first group and set in a later one is accepted, and the later limit is silently ignored",
                         "inconsistent group-wide settings")
